@@ -59,6 +59,9 @@ func (e *Engine) intrinsic(fn *ssa.Function, name string, args []Value, st *Stat
 	if e.tolerant && fn.Name() == "init" && !e.targets[fn.Pkg] {
 		return nil, st, true
 	}
+	if e.summarize != nil && fn.Signature.Recv() == nil && e.summarize.MatchString(fn.Name()) {
+		return e.summaryS4(fn, args, st), st, true
+	}
 	switch name {
 	case "context.Background", "context.TODO":
 		return &IfaceV{Alts: []IAlt{{G: TrueT, T: types.Typ[types.Int], V: BVC(64, 0)}}}, st, true
@@ -484,3 +487,48 @@ type cfgFileEnv struct {
 	Typ              *Term
 }
 
+
+// summaryS4: a user hook the engine does not interpret (string-theory code of the repository's own
+// test hooks). Results: an interface result is the last interface argument (the hook's "current
+// value"), other results are zero; every pointer argument to a scalar receives a fresh value.
+func (e *Engine) summaryS4(fn *ssa.Function, args []Value, st *State) Value {
+	e.stubs["S4 "+fn.Name()+" (opaque user hook)"]++
+	params := fn.Signature.Params()
+	for i := 0; i < params.Len(); i++ {
+		pt, ok := params.At(i).Type().Underlying().(*types.Pointer)
+		if !ok {
+			continue
+		}
+		var nv Value
+		switch b := pt.Elem().Underlying().(type) {
+		case *types.Basic:
+			switch {
+			case b.Info()&types.IsString != 0:
+				nv = e.freshStr(st, "hook", e.strMax)
+			case b.Info()&types.IsBoolean != 0:
+				nv = e.fresh("hook", KBool, 0)
+			case b.Info()&types.IsInteger != 0:
+				w, _ := bvWidth(b)
+				nv = e.fresh("hook", KBV, w)
+			}
+		}
+		if nv == nil {
+			// non-scalar hook target (e.g. *[]BoolCustom): left at its zero value; the generated code
+			// never reads a custom field back and the oracles skip custom fields
+			nv = zero(pt.Elem())
+		}
+		e.store(st, args[i].(*PtrV), nv)
+	}
+	res := fn.Signature.Results()
+	if res.Len() == 0 {
+		return nil
+	}
+	if res.Len() == 1 && types.IsInterface(res.At(0).Type()) {
+		for i := len(args) - 1; i >= 0; i-- {
+			if iv, ok := args[i].(*IfaceV); ok && types.Identical(params.At(i).Type(), res.At(0).Type()) {
+				return iv
+			}
+		}
+	}
+	return zeroResults(fn)
+}
